@@ -102,6 +102,9 @@ class StackWorld(object):
     if params.get('open_timeout', 'default') != 'default':
       b.SetOpenTimeout(params['open_timeout'])
     self.builder = b
+    for op in params.get('ops', ()):
+      if op[0] == 'at':
+        self.lp.timer(op[1]).start(lambda: None)       # an alarm clock of the application: lets virtual time stop there
     self.build_g = gevent.spawn(b.Build)
     self.lp.monitor = self.monitor
 
@@ -236,6 +239,8 @@ class StackWorld(object):
   def _op_enabled(self, op):
     if op[0] in ('call', 'close'):
       return self.client is not None
+    if op[0] == 'at':
+      return self.lp.now() >= vloop.EPOCH + op[1] - EPS       # the application does nothing until then
     return True
 
   def _do_next_op(self):
@@ -258,6 +263,8 @@ class StackWorld(object):
     elif op[0] == 'close':
       self.closed = True
       self.client.DispatcherClose()
+    elif op[0] == 'at':
+      pass
 
   # ---- end of execution -------------------------------------------------------------------------------------
   def finish(self):
